@@ -27,3 +27,9 @@ Theorem C15_own_stream_accepted : forall schema p ws, steps_ok p ws = true ->
   dec_protocol schema p (enc_protocol schema p ws) = POk (map sread_of ws).
 Proof. exact protocol_roundtrip. Qed.
 Print Assumptions C15_own_stream_accepted.
+
+(* the constants of the model (varint byte budgets, magic bytes, format version, nesting limit, default
+   buffer size >= 10) are those of the current sources (Gen/Tables.v is regenerated from /repo on every run) *)
+From YV Require Import Proofs.GenTie.
+Theorem C15_constants_are_the_sources : constants_statement.
+Proof. exact constants_agree. Qed.
